@@ -140,7 +140,7 @@ def base_cfg():
             "discard_useless_constraints_with_positive_closure": True, "keep_less_specific": True,
             "all_instances_are_compliant_mode": True, "disable_or_statements": True, "allow_redundant_or": False,
             "allow_opt_cardinality": True, "disable_exact_cardinality": False, "disable_comments": False,
-            "mode": "mixed", "thr": (0, 1), "decimals": -1}
+            "mode": "mixed", "thr": (0, 1), "decimals": -1, "detect_minimal_iri": False}
 
 
 def switch_cfg(idx, cfg=None):
@@ -176,6 +176,8 @@ def shaper_kwargs(cfg):
               allow_opt_cardinality=cfg["allow_opt_cardinality"],
               disable_exact_cardinality=cfg["disable_exact_cardinality"], disable_comments=cfg["disable_comments"],
               instances_report_mode=cfg["mode"], decimals=cfg["decimals"])
+    if cfg.get("detect_minimal_iri"):
+        kw["detect_minimal_iri"] = True
     return kw
 
 
@@ -228,6 +230,17 @@ def impl_other(ts, cfg, kind, timeout=10.0):
             with open(path, newline="") as f:
                 text = f.read()
             os.remove(path)
+        elif kind == "profile_file":
+            import os
+            d = os.path.join(os.path.dirname(os.path.dirname(os.path.dirname(os.path.abspath(__file__)))), "work", "sink")
+            os.makedirs(d, exist_ok=True)
+            path = os.path.join(d, "profile_%d.json" % os.getpid())
+            sh.profile_graph(output_file=path)
+            with open(path) as f:
+                text = f.read()
+            os.remove(path)
+            import json as _json
+            _json.loads(text)          # a truncated / invalid file counts as a failure
         else:
             text = sh.profile_graph(string_output=True)
         return ("ok", text if isinstance(text, str) else repr(text))
